@@ -59,7 +59,7 @@ ASSUMPTIONS = [
 ]
 MIN_NONTRIVIAL = 5000
 REQUIRED_COUNTERS = {
-    'api_expected_accept': 200, 'api_refuse_unauthenticated': 200,
+    'api_expected_accept': 100, 'api_refuse_unauthenticated': 200,
     'api_refuse_not_admin': 200, 'api_refuse_ill_formed': 500,
     'api_refuse_method': 100, 'job_parameters_compared': 300,
     'form_expected_accept': 10, 'form_refuse_auth': 50,
@@ -226,35 +226,38 @@ def branch_from_cases(cfg):
 
 
 def validated_body(family, method, body):
-    """-> (class, [acceptable parameter dicts coming from the body]).
+    """-> (class, [acceptable parameter dicts coming from the body], tag).
     class: 'ok' (must be accepted), 'either', 'bad' (400), 'badtype' (any
-    error status)."""
+    error status); tag names the kind of don't-care."""
     mode = body['mode']
-    if mode == 'absent' or mode == 'raw':
-        return 'either', [{}]
+    if mode == 'absent':
+        return 'either', [{}], 'no-body'
+    if mode == 'raw':
+        return 'either', [{}], 'null-or-malformed-body'
     value = body['value']
     if not isinstance(value, dict):
-        return 'either', [{}]
+        return 'either', [{}], 'non-object-json-body'
     if value == {}:
-        return 'ok', [{}]
+        return 'ok', [{}], None
     params = {}
-    verdict = 'ok'
+    verdict, tag = 'ok', None
     alternatives = None
     for key, val in value.items():
         if key == 'branch_from' and family == 'branch' and method == 'POST':
             k = classify_branch_from(val)
             if k in ('bad', 'badtype'):
-                return k, []
+                return k, [], None
             if k == 'either':
-                verdict = 'either'
+                verdict, tag = 'either', tag or 'empty-branch-from'
                 alternatives = [{}, {'branch_from': val}]
             else:
                 params['branch_from'] = val
         else:
-            verdict = 'either'      # unknown key: refuse it or drop it
+            # unknown key: refuse the request or drop the key
+            verdict, tag = 'either', 'unvalidated-json-key'
     if alternatives is not None:
-        return verdict, [dict(params, **a) for a in alternatives]
-    return verdict, [params]
+        return verdict, [dict(params, **a) for a in alternatives], tag
+    return verdict, [params], tag
 
 
 # --------------------------------------------------------------------------
@@ -443,7 +446,8 @@ def build_cells(seed):
         'EvalPullRequestForm': [{'pr_id': t} for t in (
             good_pr, '0', '-1', 'x', '', str(2 ** 31), '0' + good_pr,
             ' %s ' % good_pr, good_pr + '.0', good_pr + '/../1')] + [{}],
-        'CreateBranchForm': branch_fields + [
+        'CreateBranchForm': [dict(f, branch_from='') for f in branch_fields
+                             if f] + [{'branch': b} for b in bases] + [{}] + [
             {'branch': bases[0], 'branch_from': v} for v in (
                 '', 'abc123', 'ABCDEF', 'development/4.3', 'invalid',
                 'abc123\n', 'stabilization/4.3.0', ' abc123')],
@@ -539,9 +543,10 @@ def plan(tier, seed):
 # --------------------------------------------------------------------------
 # oracle
 # --------------------------------------------------------------------------
-def _spec(verdict, statuses, reasons, job=None, loose_2xx=False):
+def _spec(verdict, statuses, reasons, job=None, loose_2xx=False,
+          detail=None):
     return {'verdict': verdict, 'statuses': statuses, 'reasons': reasons,
-            'job': job, 'loose_2xx': loose_2xx}
+            'job': job, 'loose_2xx': loose_2xx, 'detail': detail}
 
 
 def _auth_reason(session, level):
@@ -566,6 +571,7 @@ def api_oracle(cell, cfg, session_user):
     statuses = set()
     url_params = {}
     arg = cell['arg']
+    detail = None
     if family == 'pr':
         k, value = classify_pr_id(arg)
         if k == 'bad':
@@ -584,9 +590,11 @@ def api_oracle(cell, cfg, session_user):
             url_params['branch'] = arg
             if k == 'either':
                 either.append('branch-spelling')
+    if family == 'job' and arg == 'garbage':
+        statuses |= {404}               # the URL may not route at all
     if entry is None:
-        if either or (family == 'job' and arg == 'garbage'):
-            statuses |= {404}           # the URL may not route at all
+        if either:
+            statuses |= {404}
         reasons.append('method')
         if LEVEL_OF[cell['session']] == 0:
             statuses |= {401}
@@ -602,21 +610,26 @@ def api_oracle(cell, cfg, session_user):
         reasons.append('bad-token')
     body_params = [{}]
     if job_class is not None:
-        k, body_params = validated_body(family, method, cell['body'])
+        k, body_params, tag = validated_body(family, method, cell['body'])
         if k == 'bad':
             reasons.append('ill-formed-body-parameter')
+            bf = cell['body']['value'].get('branch_from')
+            if bf.endswith('\n') and \
+                    classify_branch_from(bf[:-1]) == 'ok':
+                detail = 'well-formed-plus-trailing-newline'
         elif k == 'badtype':
             reasons.append('ill-typed-body-parameter')
         elif k == 'either':
-            either.append('body:' + cell['body_name'])
+            either.append(tag)
     if reasons:
         for r in reasons:
             statuses |= STATUS_OF[r]
         if either:
-            # e.g. no session + request without a body: Flask may answer
-            # 400 for the body before or after the authentication
-            statuses |= {400}
-        return _spec('refuse', statuses, reasons)
+            # e.g. no session + a request without a body or an oddly spelt
+            # pr id: the framework may answer 400 / 404 for those before the
+            # authentication is looked at
+            statuses |= {400, 404}
+        return _spec('refuse', statuses, reasons, detail=detail)
     if job_class is None:
         ok = {200}
         if family == 'job' and cell['arg'] != 'done-job':
@@ -666,6 +679,7 @@ def form_oracle(cell, cfg, session_user):
     given = cell['fields']
     params, alternatives = {}, [{}]
     bad = False
+    detail = None
     if 'pr_id' in fields:
         k, value = classify_pr_id(given.get('pr_id', ''))
         if k == 'bad':
@@ -684,14 +698,22 @@ def form_oracle(cell, cfg, session_user):
             if k == 'either':
                 either.append('branch-spelling')
     if 'branch_from' in fields:
-        val = given.get('branch_from', '')
-        k = classify_branch_from(val)
-        if k in ('bad', 'badtype'):
-            bad = True
-        elif k == 'either':      # empty = not given
-            alternatives = [{}, {'branch_from': val}]
+        if 'branch_from' not in given:
+            # a browser always sends the (empty) input
+            either.append('optional-form-field-absent')
+            alternatives = [{}, {'branch_from': ''}, {'branch_from': None}]
         else:
-            params['branch_from'] = val
+            val = given['branch_from']
+            k = classify_branch_from(val)
+            if k in ('bad', 'badtype'):
+                bad = True
+                if val.endswith('\n') and \
+                        classify_branch_from(val[:-1]) == 'ok':
+                    detail = 'well-formed-plus-trailing-newline'
+            elif k == 'either':      # empty input = not given
+                alternatives = [{}, {'branch_from': val}]
+            else:
+                params['branch_from'] = val
     if any(k not in fields for k in given):
         either.append('undeclared-form-field')
     job = {'class': job_class, 'module': job_module,
@@ -702,7 +724,7 @@ def form_oracle(cell, cfg, session_user):
     if bad:
         # nothing can be validated: no job, whatever the answer looks like
         return _spec('refuse', set(ANY_ERROR) | REDIRECTS,
-                     ['ill-formed-parameter'])
+                     ['ill-formed-parameter'], detail=detail)
     if cell['csrf'] != 'own':
         return _spec('either', {302, 303}, ['csrf:' + cell['csrf']], job,
                      loose_2xx=True)
@@ -976,6 +998,8 @@ def judge(cell, spec, seen, acc, seed):
     status = seen.status
     verdict = spec['verdict']
     tag = '+'.join(spec['reasons']) or 'authorised'
+    if spec.get('detail'):
+        tag += ':' + spec['detail']
     problem = None
     if verdict == 'refuse':
         if jobs:
